@@ -252,7 +252,7 @@ def eblif_candidates(d):
 
 
 CANDIDATES = {"v": verilog_candidates, "edf": edif_candidates, "eblif": eblif_candidates}
-PLAIN_RENDER = {"v": {"ws": "plain", "comment_rate": 0.0, "wire_kw": "wire", "group_decls": False, "defparam": False},
+PLAIN_RENDER = {"v": {"ws": "plain", "comment_rate": 0.0, "wire_kw": "wire", "group_decls": False, "defparam": False, "split_attrs": False},
                 "edf": {"ws": "plain", "comment_rate": 0.0, "kwcase": "lower", "refcase": False, "design_refcase": False},
                 "eblif": {"comment_rate": 0.0, "continuations": False}}
 
